@@ -228,7 +228,7 @@ def compile_defs(pid, imports, defs_text, tag='defs', timeout=600):
     name = 'Defs_%s_%s' % (pid, tag)
     p = os.path.join(d, name + '.v')
     open(p, 'w').write('From Coq Require Import String.\n' + imports + '\n' + defs_text + '\n')
-    rc, out = sh(['timeout', str(timeout), 'coqc', '-q', '-Q', THEORIES, 'EdxmlVerif', '-Q', d, 'Cases' + pid + tag, '-w', '-all', p], cwd=d, timeout=timeout + 30)
+    rc, out = sh(['timeout', str(timeout), 'coqc', '-q', '-noglob', '-Q', THEORIES, 'EdxmlVerif', '-Q', d, 'Cases' + pid + tag, '-w', '-all', p], cwd=d, timeout=timeout + 30)
     if rc != 0:
         return None, out
     return ('From Cases%s%s Require Import %s.' % (pid, tag, name), ['-Q', d, 'Cases' + pid + tag]), out
